@@ -200,7 +200,7 @@ pub struct ClassedRule {
 /// Rules accepted by the constructor, with their class measured over a full 400-year cycle. Ties and overlaps are constructed directly.
 pub fn arb_rule() -> SBoxedStrategy<ClassedRule> {
     let raw = (
-        (prop_oneof![3 => 0u8..7, 3 => 7u8..9, 1 => Just(9u8), 1 => 10u8..12], 0..N_NOTATIONS, 0..N_NOTATIONS, -3i64..=3, 0i64..400),
+        (prop_oneof![3 => 0u8..7, 3 => 7u8..9, 1 => Just(9u8), 1 => 10u8..12], 0..N_NOTATIONS, 0..N_NOTATIONS, prop_oneof![3 => -3i64..=3, 2 => proptest::sample::select(vec![-35i64, -14, -7, 7, 14, 35, 28, -28, 21, -21])], 0i64..400),
         (arb_offset_rule(), prop_oneof![4 => Just(None), 3 => arb_offset_rule().prop_map(Some)], 0u8..4),
         (arb_rule_time(), arb_rule_time(), 0i64..3 * 86400),
         (arb_name(), arb_name()),
@@ -474,6 +474,81 @@ pub fn arb_aligned_zone() -> SBoxedStrategy<MZone> {
                 trans.push((lt as i64, if to_dst { 2 } else { 1 }));
             }
             Some(MZone { trans, types, leaps, trailer: MTrailer::Alt(r.clone()) })
+        })
+        .sboxed()
+}
+
+
+/// Zones whose table transitions sit within a few hours of leap-second records (offsets up to +-14 h), so that a leap second lies
+/// between a searched wall-clock value and its candidate instants.
+pub fn arb_leap_adjacent_zone() -> SBoxedStrategy<MZone> {
+    (
+        prop_oneof![2 => Just(crate::oleap::real_table()), 2 => arb_leap_table(6)],
+        proptest::collection::vec((any::<u32>(), -50_400i64..50_400, (-56i32..=56).prop_map(|k| k * 900), any::<bool>()), 1..6),
+        (-56i32..=56).prop_map(|k| k * 900),
+        0u8..3,
+    )
+        .prop_filter_map("needs a leap table", |(leaps, raw, off0, trailer_kind)| {
+            if leaps.is_empty() {
+                return None;
+            }
+            let mut types = vec![MLtt::new(off0, false, Some("LMT"))];
+            let mut pts: Vec<(i64, usize)> = vec![];
+            for (k, (sel, delta, off, dst)) in raw.iter().enumerate() {
+                let l = leaps[crate::run::idx(*sel, leaps.len())].0;
+                let t = l.checked_add(*delta)?;
+                types.push(MLtt { off: *off, dst: *dst, name: Some(format!("T{k:02}")) });
+                pts.push((t, types.len() - 1));
+            }
+            pts.sort();
+            pts.dedup_by_key(|p| p.0);
+            // two transitions must not take effect at the same UTC instant
+            let mut last_u = None;
+            for p in &pts {
+                let u = crate::oleap::g(&leaps, p.0)?;
+                if last_u == Some(u) {
+                    return None;
+                }
+                last_u = Some(u);
+            }
+            let trailer = match trailer_kind {
+                0 => MTrailer::None,
+                _ => MTrailer::Fixed(types[pts.last()?.1].clone()),
+            };
+            Some(MZone { trans: pts, types, leaps, trailer })
+        })
+        .sboxed()
+}
+
+/// Zones with a forward or backward transition within one offset of either end of the supported range.
+pub fn arb_range_edge_zone() -> SBoxedStrategy<MZone> {
+    (any::<bool>(), 0i64..200_000, -50_400i32..50_400, -50_400i32..50_400, any::<bool>())
+        .prop_map(|(top, dist, a, b, fixed)| {
+            let t = if top { cal::max_unix() - dist } else { cal::min_unix() + dist };
+            let types = vec![MLtt::new(a, false, Some("AAA")), MLtt::new(b, true, Some("BBB"))];
+            let trailer = if fixed { MTrailer::Fixed(types[1].clone()) } else { MTrailer::None };
+            // without trailer the last transition is ignored by the search: add a second one far away
+            let trans = if fixed { vec![(t, 1)] } else if top { vec![(t, 1), (i64::MAX - 5, 1)] } else { vec![(t, 1), (t.saturating_add(400_000), 0)] };
+            MZone { trans, types, leaps: vec![], trailer }
+        })
+        .sboxed()
+}
+
+/// Zones with many (9..14) local time types, every transition using another one.
+pub fn arb_many_types_zone() -> SBoxedStrategy<MZone> {
+    (9usize..14, -1_000_000_000i64..1_000_000_000, proptest::collection::vec((3600i64..40_000_000, -50_400i32..50_400), 14))
+        .prop_map(|(n, t0, steps)| {
+            let mut types = vec![];
+            let mut trans = vec![];
+            let mut t = t0;
+            for k in 0..n {
+                types.push(MLtt { off: steps[k].1, dst: k % 2 == 1, name: Some(format!("Y{k:02}")) });
+                if k > 0 {
+                    t += steps[k].0;
+                    trans.push((t, k));
+                }
+            }
+            MZone { trans, types, leaps: vec![], trailer: MTrailer::None }
         })
         .sboxed()
 }
